@@ -89,6 +89,7 @@ type RenderObs struct {
 	Diff       *Diff             `json:"diff,omitempty"`
 	MaxMap     int               `json:"max_map"`           // largest unordered collection the fixture routes through
 	Mutated    []string          `json:"mutated,omitempty"` // input objects the generator wrote into
+	Resync     []string          `json:"resync,omitempty"`  // changes the Configuration reported for re-delivered unchanged objects
 	Bytes      int               `json:"bytes"`
 	First      map[string]string `json:"first,omitempty"` // the files of the first rendering (compared across processes)
 	Error      string            `json:"error,omitempty"`
@@ -669,6 +670,10 @@ func buildResources(c *Case, round int) (configs.ExtendedResources, int) {
 		res.VirtualServerExes = []*configs.VirtualServerEx{ex}
 		upd(c.P["sub"])
 		upd(len(ex.Endpoints))
+	case "cmresync":
+		res.VirtualServerExes = buildCMResync(c, round)
+		upd(c.P["solvers"])
+		upd(len(res.VirtualServerExes))
 	case "ingctl":
 		ex := buildIngCtl(c)
 		res.IngressExes = []*configs.IngressEx{ex}
@@ -822,6 +827,9 @@ func runRender(c *Case) (obs RenderObs) {
 		}
 	}
 	obs.Distinct = len(seen)
+	if k, ok := ctlCache[c.ID]; ok {
+		obs.Resync = k.changes
+	}
 	return
 }
 
@@ -1570,6 +1578,10 @@ func genCases(a vh.Args) []Case {
 	add("render", "vs", false, map[string]int{"ups": 3, "eps": 1, "mix": 1, "hdr": 1, "long": 1}, rounds)
 	add("render", "vs", true, map[string]int{"ups": 2, "mix": 1, "akp": 2, "keys": 2, "claims": 2, "tiers": 2, "long": 1, "reuse": 1}, rounds)
 	add("render", "vsctl", true, map[string]int{"ups": 2, "eps": 1, "sub": 2, "mix": 1, "long": 1}, rounds)
+	// cert-manager on: a VirtualServer and 2-3 solver Ingresses for its host through the real Configuration; unchanged objects re-delivered every round
+	add("render", "cmresync", false, map[string]int{"ups": 2, "eps": 1, "solvers": 2}, rounds)
+	add("render", "cmresync", true, map[string]int{"ups": 3, "eps": 1, "solvers": 3, "mix": 1}, rounds)
+	add("render", "cmresync", false, map[string]int{"ups": 2, "solvers": 4}, rounds)
 	// Ingress and TransportServer through the controller too (endpoint sets spread over several EndpointSlices)
 	add("render", "ingctl", false, map[string]int{"svcs": 3, "eps": 1, "ann": 4}, rounds)
 	add("render", "ingctl", true, map[string]int{"svcs": 2, "eps": 2, "ann": 6, "svcann": 1}, rounds)
